@@ -90,7 +90,9 @@ func (rn *Runner) RunProject(p *Project, keepGoing bool) (*Result, string) {
 	}
 	var rjs []RoutesJob
 	for _, r := range rn.Routes {
-		r.Out = "./dist/" + r.Key + "/gleece.routes.go"
+		if r.Out == "" {
+			r.Out = "./dist/" + r.Key + "/gleece.routes.go"
+		}
 		rjs = append(rjs, r)
 	}
 	res := RunJob(Job{Dir: dir, Config: "./gleece.config.json", Specs: rn.Specs, Routes: rjs, Runs: rn.Runs, KeepGoin: keepGoing, ValidateOnly: rn.ValidateOnly})
